@@ -19,7 +19,7 @@ MNEMONICS = ['ld', 'ldx', 'ld.b', 'mov', 'movw', 'st', 'jmp', 'jr', 'tst', 'inc'
              'push', 'op.w']
 MACROS = ['mpush', 'swap', 'ldm', 'clr2']
 # a key may extend another key, and keys are case sensitive
-ENUM_KEYS = ['zf', 'cf', 'nz', 'eq', 'ne', 'lo', 'hi', 'k1', 'eq.l', 'k1.w', 'Hi', 'NZ']
+ENUM_KEYS = ['zf', 'cf', 'nz', 'eq', 'ne', 'lo', 'hi', 'k1', 'eq.l', 'k1.w', 'Hi', 'NZ', '1', '7']      # and may be numerals
 LABELS = ['start', 'loop', 'done', 'tbl', 'msg', 'lbl1', 'lbl2', 'vec', 'isr', 'amov', 'mov1', 'xa', 'hl2',
           'spx', 'r1x', 'jmp2']
 CONSTS = ['K_ONE', 'kval', 'size1', 'OFFS', 'k_two', 'KVAL', 'offs']       # case twins are distinct names
